@@ -29,6 +29,9 @@ type c12Elem struct {
 }
 
 func (e c12Elem) damping() bool {
+	if strings.HasPrefix(e.Kind, "rcv6") {
+		return false // a received Cease, whatever its subcode
+	}
 	return strings.HasPrefix(e.Kind, "sent-") || strings.HasPrefix(e.Kind, "rcv")
 }
 
@@ -146,8 +149,13 @@ func c12Fault(w *world.World, r *world.Remote, el c12Elem) int64 {
 		}
 		return readNotif()
 	case strings.HasPrefix(el.Kind, "rcv"):
+		// "rcv<code>@<state>" (subcode 1) or "rcv<code>.<subcode>@<state>"
 		var code, st int
-		fmt.Sscanf(el.Kind, "rcv%d@%d", &code, &st)
+		sub := 1
+		if n, _ := fmt.Sscanf(el.Kind, "rcv%d.%d@%d", &code, &sub, &st); n != 3 {
+			sub = 1
+			fmt.Sscanf(el.Kind, "rcv%d@%d", &code, &st)
+		}
 		ok := true
 		switch st {
 		case 0:
@@ -160,7 +168,7 @@ func c12Fault(w *world.World, r *world.Remote, el c12Elem) int64 {
 		if !ok {
 			return -1
 		}
-		r.Send(wire.Notification(byte(code), 1, nil))
+		r.Send(wire.Notification(byte(code), byte(sub), nil))
 		t := vrt.Cur().Now()
 		r.Deadline(5 * time.Second)
 		r.Drain()
@@ -616,6 +624,26 @@ func c12Check(c *harness.Ctx) {
 					if !run(c12Case{Elems: []c12Elem{first, k2}, Passive: passive}) {
 						return
 					}
+				}
+			}
+		}
+	}
+	// (1a) the subcode does not matter: protocol errors with other subcodes damp, a Cease with ANY subcode
+	// does not (alone, and between two protocol errors it does not count)
+	for _, dir := range []string{"out", "in"} {
+		for st := 0; st < 3; st++ {
+			for _, sub := range []int{0, 1, 2, 3, 4, 5, 6, 7, 8, 9, 10, 11, 255} {
+				cease := c12Elem{Kind: fmt.Sprintf("rcv6.%d@%d", sub, st), Dir: dir}
+				if !run(c12Case{Elems: []c12Elem{cease}, Passive: dir == "in"}) {
+					return
+				}
+				if st == 2 && !run(c12Case{Elems: []c12Elem{{Kind: "sent-badopen", Dir: dir}, cease, {Kind: "rcv3@2", Dir: dir}}, Passive: dir == "in"}) {
+					return
+				}
+			}
+			for _, cs := range [][2]int{{1, 0}, {1, 2}, {2, 0}, {2, 2}, {2, 7}, {3, 0}, {3, 11}, {4, 0}, {5, 0}, {5, 3}, {7, 0}, {2, 255}} {
+				if !run(c12Case{Elems: []c12Elem{{Kind: fmt.Sprintf("rcv%d.%d@%d", cs[0], cs[1], st), Dir: dir}}, Passive: dir == "in"}) {
+					return
 				}
 			}
 		}
